@@ -65,12 +65,11 @@ pub fn create_share(measurement: &[u8], threshold: u32, epoch: &str) -> String {
 #[wasm_bindgen]
 pub fn group_shares(serialized_shares: &str, epoch: &str) -> Option<String> {
   // 1. deserialize shares into Vec<Share>
-  let shares: Vec<Share> = serialized_shares
+  let shares: Option<Vec<Share>> = serialized_shares
     .split('\n')
-    .map(|chunk| {
-      Share::from_bytes(&BASE64_STANDARD.decode(chunk).unwrap()).unwrap()
-    })
+    .map(|chunk| Share::from_bytes(&BASE64_STANDARD.decode(chunk).ok()?))
     .collect();
+  let shares = shares?;
 
   // 2. call recover(shares)
   let res = share_recover(&shares);
